@@ -667,7 +667,11 @@ pub fn angles(m: &mut M, r: &mut Rng, n: u64) {
 pub fn elem_all(m: &mut M, r: &mut Rng, n: u64) {
     for i in 0..n {
         m.group("elem_all");
-        let h = match i % 6 {
+        let h = match i % 8 {
+            // arguments whose results land in the gradual-underflow / near-overflow zone of exp, exp2,
+            // sinh, cosh (functions that scale or assemble their result words by hand)
+            6 => -(1008.0 + 70.0 * (r.below(1u64 << 53) as f64) * pow2(-53)),
+            7 => sgn(r) * (688.0 + 72.0 * (r.below(1u64 << 53) as f64) * pow2(-53)),
             0 => sgn(r) * tiny_arg(r),
             1 => sgn(r) * log_uniform(r, -3, 9).min(690.0),
             2 => sgn(r) * (r.below(1u64 << 53) as f64) * pow2(-53),
@@ -696,9 +700,126 @@ pub fn elem_all(m: &mut M, r: &mut Rng, n: u64) {
     }
 }
 
+/// C01 over programs: arithmetic and mathematical functions mixed, results fed back into other calls.
+/// Validated with C01_ONLY=1 (normalisation clause + determinism memo), so the accuracy oracles are
+/// not paid for; registers are steered so that results visit the zones in which a hand-assembled
+/// pair can lose normalisation (gradual underflow, near overflow, cancellation, huge/tiny arguments).
+pub fn prog_elem(m: &mut M, r: &mut Rng, n: u64) {
+    const UN: [&str; 24] = ["exp", "exp2", "exp_m1", "ln", "log2", "log10", "ln_1p", "sqrt", "cbrt", "sin", "cos", "tan",
+                            "asin", "acos", "atan", "sinh", "cosh", "tanh", "asinh", "acosh", "atanh", "sin_cos", "exp2", "exp"];
+    for _ in 0..n {
+        m.group("prog_elem");
+        for d in 0..8 {
+            let h = match r.below(8) {
+                0 => sgn(r) * tiny_arg(r),
+                1 => sgn(r) * log_uniform(r, -3, 9).min(690.0),
+                2 => -(1008.0 + 70.0 * (r.below(1u64 << 53) as f64) * pow2(-53)),
+                3 => sgn(r) * (688.0 + 72.0 * (r.below(1u64 << 53) as f64) * pow2(-53)),
+                4 => sgn(r) * log_uniform(r, -1, 1),
+                5 => log_uniform(r, -1000, 1000),
+                6 => sgn(r) * log_uniform(r, -30, 30),
+                _ => sgn(r) * (r.below(2200) as f64) * 0.5,
+            };
+            load_near(m, r, d, h);
+        }
+        // directed block: results steered, one binade at a time (round-robin), through the gradual-underflow
+        // zone 2^-1074..2^-1000 and up to the overflow threshold
+        for _ in 0..6 {
+            let t = r.tick();
+            let e = if t % 4 == 3 { 990.0 + (t / 4 % 34) as f64 } else { -1075.0 + ((t - t / 4) % 76) as f64 };
+            let u = (r.below(1u64 << 53) as f64) * pow2(-53);
+            let d = r.below(8) as usize;
+            match r.below(6) {
+                0 | 1 => {
+                    load_near(m, r, d, e + u);
+                    m.call("elem", "exp2", *r.pick(&SP2), Some(d), &[A::R(d)]);
+                }
+                2 => {
+                    load_near(m, r, d, (e + u) * core::f64::consts::LN_2);
+                    m.call("elem", *r.pick(&["exp", "exp_m1", "sinh", "cosh"]), *r.pick(&SP2), Some(d), &[A::R(d)]);
+                }
+                3 => {
+                    let k = r.range(2, 40);
+                    let base = ((e + u) / k as f64).exp2();
+                    load_near(m, r, d, base);
+                    m.call("pow", "powi", "inh", Some(d), &[A::R(d), A::I(false, k as u128, "i32")]);
+                }
+                4 => {
+                    let k = r.range(2, 40);
+                    let base = (-(e + u) / k as f64).exp2();
+                    load_near(m, r, d, base);
+                    m.call("pow", "powi", "inh", Some(d), &[A::R(d), A::I(true, k as u128, "i32")]);
+                }
+                _ => {
+                    let y = sgn(r) * log_uniform(r, 0, 6);
+                    let base = ((e + u) / y).exp2();
+                    let d2 = (d + 1) % 8;
+                    if base.is_finite() && base > pow2(-1000) && base < pow2(1000) {
+                        load_near(m, r, d, base);
+                        load_near(m, r, d2, y);
+                        m.call("elem", "powf", "inh", Some(d), &[A::R(d), A::R(d2), A::R(d)]);
+                    }
+                }
+            }
+        }
+        let len = r.range(20, 50);
+        for _ in 0..len {
+            let a = r.below(8) as usize;
+            let b = r.below(8) as usize;
+            let d = r.below(8) as usize;
+            if !m.tf(a).hi().is_finite() || !m.tf(a).is_valid() {
+                let h = sgn(r) * log_uniform(r, -8, 8);
+                load_near(m, r, a, h);
+            }
+            if !m.tf(b).hi().is_finite() || !m.tf(b).is_valid() {
+                let h = sgn(r) * log_uniform(r, -8, 8);
+                load_near(m, r, b, h);
+            }
+            match r.below(16) {
+                0..=7 => {
+                    let op = *r.pick(&UN);
+                    if op == "sin_cos" {
+                        m.call("elem", op, "inh", Some(d), &[A::R(a)]);
+                    } else {
+                        m.call("elem", op, *r.pick(&SP2), Some(d), &[A::R(a)]);
+                    }
+                }
+                8 => {
+                    m.call("elem", *r.pick(&["hypot", "atan2"]), "inh", Some(d), &[A::R(a), A::R(b)]);
+                }
+                9 => {
+                    m.call("elem", "powf", "inh", Some(d), &[A::R(a), A::R(b), A::R(a)]);
+                }
+                10 => {
+                    let k = r.range(-40, 40);
+                    m.call("pow", "powi", "inh", Some(d), &[A::R(a), A::I(k < 0, k.unsigned_abs() as u128, "i32")]);
+                }
+                11 => {
+                    m.call("elem", "log", "inh", Some(d), &[A::R(a), A::R(b)]);
+                }
+                12 => {
+                    m.call("misc", *r.pick(&["to_degrees", "to_radians"]), "inh", Some(d), &[A::R(a)]);
+                }
+                13 => {
+                    // bring a register back into a zone where the functions have finite, interesting results
+                    let k = *r.pick(&[-1020.0, -1015.5, -1040.0, -740.0, -708.0, 700.0, 709.0, 1000.0, 1022.0, -900.0, 0.5, 20.0]);
+                    m.call("arith", "add", "vv", Some(d), &[A::R(a), A::F(k)]);
+                }
+                _ => {
+                    let op = *r.pick(&["add", "sub", "mul", "div"]);
+                    if op != "div" || m.tf(b).hi() != 0.0 {
+                        m.call("arith", op, *r.pick(&SP_TT), Some(d), &[A::R(a), A::R(b)]);
+                    }
+                }
+            }
+        }
+    }
+}
+
 pub fn run(m: &mut M, r: &mut Rng, family: &str, n: u64) -> bool {
     match family {
         "elem_all" => elem_all(m, r, n),
+        "prog_elem" => prog_elem(m, r, n),
         "roots" => roots(m, r, n),
         "powi" => powi(m, r, n),
         "exps" => exps(m, r, n),
